@@ -32,6 +32,13 @@ def _cases(draw, max_size=9):
     pops = [len(s["pos"]) + s["ep"], len(s["neg"]) + s["en"],
             len(s["pos"]) + len(s["neg"]) + s["ep"] + s["en"]]
     targets = draw(st.lists(gen.target_values(pops), min_size=1, max_size=4))
+    thr_dtype = draw(st.sampled_from([None, None, None, "float32", "float16"]))
+    if thr_dtype:
+        import numpy as _np
+
+        with _np.errstate(over="ignore"):
+            thr = dict(thr, flat=[float(x) for x in _np.asarray(thr["flat"], dtype=thr_dtype).tolist()],
+                       dtype=thr_dtype)
     exact = draw(st.booleans())
     if exact:
         a = draw(st.sampled_from([0.25, 0.5, 2.0, 4.0, 1024.0]))
@@ -48,6 +55,7 @@ def check(case):
     dt = int if s["mode"] == "int" else float
     shape = tuple(case["thr"]["shape"])
     thr = gen.np_array(case["thr"]["flat"], shape)
+    thr_arg = thr.astype(case["thr"]["dtype"]) if case["thr"].get("dtype") else thr  # same values, narrow dtype
     rs = np.asarray(case["targets"], dtype=float)
     a, b = case["a"], case["b"]
     allv = [float(x) for x in pos + neg]
@@ -78,10 +86,10 @@ def check(case):
     for sc, ec in CONFIGS:
         ctx = f"config={sc}/{ec}"
         o = _mk(pos, neg, ep, en, sc, ec, dt)
-        cm = o.cm(thr).matrix
+        cm = o.cm(thr_arg).matrix
         # --- swap
         sw = o.swap()
-        require(np.array_equal(sw.cm(thr).matrix, cm[..., ::-1, ::-1]), "sym:swap-cm",
+        require(np.array_equal(sw.cm(thr_arg).matrix, cm[..., ::-1, ::-1]), "sym:swap-cm",
                 lambda: f"{ctx}: swap().cm != cm reversed at {thr.tolist()}")
         if thr.size:
             for m1, m2 in SWAPPED.items():
@@ -91,7 +99,7 @@ def check(case):
         require(sw.swap() == o, "sym:swap-involution", ctx)
         # --- negation with flipped score_class
         ng = _mk(npos, nneg, ep, en, FLIP[sc], ec, dt)
-        require(np.array_equal(ng.cm(-thr).matrix, cm), "sym:negation-cm",
+        require(np.array_equal(ng.cm(-thr_arg).matrix, cm), "sym:negation-cm",
                 lambda: f"{ctx}: negated object at -t differs at t={thr.tolist()}")
         # --- affine
         af = _mk(apos, aneg, ep, en, sc, ec)
@@ -152,7 +160,7 @@ def _group_cases(draw):
     pg = draw(st.lists(g, min_size=len(s["pos"]), max_size=len(s["pos"])))
     ng = draw(st.lists(g, min_size=len(s["neg"]), max_size=len(s["neg"])))
     thr = draw(gen.threshold_values(s["pos"] + s["neg"], 3))
-    return dict(s=s, pg=pg, ng=ng, thr=thr)
+    return dict(s=s, pg=pg, ng=ng, thr=thr, touch=draw(st.sampled_from(["none", "getitem", "group_cm"])))
 
 
 def check_group(case):
@@ -167,6 +175,12 @@ def check_group(case):
                         pos_groups=np.asarray(case["pg"], dtype=str),
                         neg_groups=np.asarray(case["ng"], dtype=str),
                         score_class=sc, equal_class=ec)
+        # per-group queries before swapping fill the object's lazy per-group cache
+        if case.get("touch") == "getitem":
+            for name in g.groups:
+                g[name]
+        elif case.get("touch") == "group_cm":
+            g.group_cm(thr)
         sw = g.swap()
         require(isinstance(sw, GroupScores), "sym:group-swap-type", str(type(sw)))
         require(np.array_equal(sw.cm(thr).matrix, g.cm(thr).matrix[..., ::-1, ::-1]),
